@@ -75,3 +75,35 @@ Definition write_excel_ledger (owns : bool) (n_tables : nat) (fail_at : option n
   | Some j => if Nat.ltb j n_tables then (l0, true) else (do_close r (do_open r l0), false)
   | None => (do_close r (do_open r l0), false)
   end.
+
+(* ---------- load_files over several locations ---------- *)
+(* queued_load reads one location at a time ('yield from reader.read(...)'): the next file is opened
+   only after the previous reader is exhausted (and has closed its file); an error raised by a block
+   ends the whole load; closing or dropping the loader closes the reader it is suspended in.
+   State: the readers not yet exhausted (the head is the current one) and the current one's state. *)
+Fixpoint lnext (rs : list reader) (s : gstate) (l : ledger) : list reader * gstate * ledger * outcome :=
+  match rs with
+  | [] => ([], Finished, l, Stopped)
+  | r :: rest =>
+      let '(s', l', o) := gstep r s l GNext in
+      match o with
+      | Yielded => (r :: rest, s', l', Yielded)
+      | Raised => ([], Finished, l', Raised)
+      | _ => lnext rest Fresh l'
+      end
+  end.
+
+Definition lstep (rs : list reader) (s : gstate) (l : ledger) (e : gevent) : list reader * gstate * ledger * outcome :=
+  match e with
+  | GNext => lnext rs s l
+  | _ => match rs with
+         | [] => ([], Finished, l, Nothing)
+         | r :: _ => let '(_, l', o) := gstep r s l e in ([], Finished, l', o)
+         end
+  end.
+
+Fixpoint lrun (rs : list reader) (s : gstate) (l : ledger) (es : list gevent) : list reader * gstate * ledger :=
+  match es with
+  | [] => (rs, s, l)
+  | e :: rest => let '(rs', s', l', _) := lstep rs s l e in lrun rs' s' l' rest
+  end.
